@@ -458,7 +458,8 @@ class DebuggedApplication:
     def _fail_pin_auth(self) -> None:
         with self._failed_pin_auth.get_lock():
             count = self._failed_pin_auth.value
-            self._failed_pin_auth.value = count + 1
+            # The counter is an unsigned byte, don't let it wrap back to zero.
+            self._failed_pin_auth.value = min(count + 1, 255)
 
         time.sleep(5.0 if count > 5 else 0.5)
 
